@@ -133,6 +133,13 @@ fn run_c11(ctx: &mut Ctx) -> Verdict {
     let want = reference_eval(&db, &expr);
     // one run in 16: the `bgpfu` executable over a real loopback TCP connection
     let via_cli = cfg.max_as <= 1000 && ctx.chance(1, 16);
+    let warm_up: Option<String> = (!via_cli && cfg.max_as <= 1000 && ctx.chance(1, 6)).then(|| {
+        ctx.count("probe.evaluator_used_before");
+        if ctx.pick(2) == 0 { "AS-NOSUCHSET".to_string() } else { gen_query_expr(ctx, &db) }
+    });
+    if let Some(w) = &warm_up {
+        ev!(ctx, "evaluated before on the same evaluator: {w}");
+    }
     let irr = setup_irr(ctx, db);
     let got = if via_cli {
         uninstall();
@@ -144,6 +151,10 @@ fn run_c11(ctx: &mut Ctx) -> Verdict {
     } else {
         match RpslEvaluator::new("irrd.sim", 43) {
             Ok(mut e) => {
+                if let Some(w) = &warm_up {
+                    // the evaluator is not fresh: something else (possibly unevaluable) was evaluated before
+                    let _ = lib_eval(&mut e, w);
+                }
                 let r = lib_eval(&mut e, &expr);
                 drop(e);
                 r
@@ -309,7 +320,7 @@ pub static C11: PropSpec = PropSpec {
     runs: |t| if t == Tier::Thorough { 4_000_000 } else { 30_000 },
     enumerated: |_| 0,
     run: run_c11,
-    rule: "generated IRR database (nested and cyclic as-sets, hierarchical names, unknown nested sets, ASes with only IPv4 / only IPv6 / no routes, duplicate prefixes, nested route-sets, filter-sets referring to other names; thorough: an as-set with up to 2600 members, crossing irrc's 1000-in-flight window) and an mp-filter expression over its names (AND/OR/NOT, parentheses, literal prefix sets, all range operators, occasionally unknown names); responses are cut by seeded read sizes (1-7 bytes / mixed / whole) and writes may be partial. One run in 16 evaluates through the `bgpfu` executable (child process, loopback TCP to FakeIrrd) and compares its printed ranges. Oracle: ranges equal the reference evaluation (rpsl's evaluator over a resolver that reads the database directly). Non-trivial = the reference set is non-empty; distinct = distinct event-log hash",
+    rule: "generated IRR database (nested and cyclic as-sets, hierarchical names, unknown nested sets, ASes with only IPv4 / only IPv6 / no routes, duplicate prefixes, nested route-sets, filter-sets referring to other names; thorough: an as-set with up to 2600 members, crossing irrc's 1000-in-flight window) and an mp-filter expression over its names (AND/OR/NOT, parentheses, literal prefix sets, all range operators, occasionally unknown names); responses are cut by seeded read sizes (1-7 bytes / mixed / whole) and writes may be partial. One run in six evaluates another (possibly unevaluable) expression on the same evaluator first. One run in 16 evaluates through the `bgpfu` executable (child process, loopback TCP to FakeIrrd) and compares its printed ranges. Oracle: ranges equal the reference evaluation (rpsl's evaluator over a resolver that reads the database directly). Non-trivial = the reference set is non-empty; distinct = distinct event-log hash",
     components: COMPONENTS_C11,
     assumptions: &[
         "rpsl expression semantics and generic-ip set algebra are trusted (used on both sides)",
